@@ -6,13 +6,17 @@ scalars, sub-documents - the empty one included - and arrays), dotted paths and 
 code and on the Lean model (`MongoModel.applyUpdateColl … upsert`).  Directly on python:
 before every such call the harness asks the real `find` what matches; afterwards exactly one
 document was added iff nothing matched, nothing existing was touched by an insert, a matching
-call equals the same call without upsert (run on a twin), the new document is what an
+call equals the same call without upsert (run on a twin) - outcome and state, whether the call
+returned or raised, for every filter shape, equality conditions one below the other included
+(read off a stored document, so that it satisfies them: such a filter cannot seed a document but
+finds one like any other), and for the upserting requests of a bulk -, the new document is what an
 independent reference builds (seed from the filter's equalities, then the update with
 `$setOnInsert`; equality conditions one below the other must raise), the reported upserted_id is
 the new document's `_id` with matched_count 0, and a pure-equality filter - the empty field name
 included - finds the new document again.  The witnesses of the repaired defects
 (known_findings.json, status "fixed") are replayed through oracle and correspondence on every run.
 """
+import collections
 import copy
 import sys
 
@@ -33,10 +37,15 @@ RULE = ('history = 2-14 generated operations, about two thirds of them update_on
         'embedded), _id.k and operator conditions ($gt $in $ne $exists), aimed at existing '
         'documents about half of the time; a tenth of the filters carry an empty field name (\'\', '
         '\'a.\'), an operator condition below an equality ({b: {}, \'b.k\': {$gt: 1}}, either order) or '
-        'an equality below another one (which must raise); updates with 1-3 '
+        'an equality below another one (either order, plain and $eq; must raise when nothing '
+        'matches) - two times out of three read off a stored document (a path holding a '
+        'sub-document or array, _id included, and one or two paths into it, array positions '
+        'named or passed through), which then matches it; updates with 1-3 '
         'operators including $setOnInsert; every step is compared with the Lean model (outcome, '
         'full state) and judged directly on python against find-before / find-after, a twin run '
-        'without upsert and an independent seed + operator reference (which also says when the '
+        'without upsert whenever something matched (outcome - value or error - and state; for a '
+        'bulk: upsert switched off on the requests that find a document when they are reached) '
+        'and an independent seed + operator reference (which also says when the '
         'equality conditions conflict and the call must raise); the witnesses of the repaired '
         'defects are replayed first; non-trivial = an upsert that '
         'inserted a document whose seed has a dotted path or whose filter has an operator '
@@ -52,6 +61,7 @@ ASSUMPTIONS = [
 
 known_labels = {e['id'] for e in common.load_known(ID) if e.get('status') == 'known'}
 UPD = ('update_one', 'update_many', 'replace_one')
+COUNTS = collections.Counter()      # what the twin oracle saw (reported in the evidence)
 FAM = ('find_one_and_update', 'find_one_and_replace')
 
 
@@ -87,6 +97,32 @@ class Gen13(hist.HistGen):
         """an equality stated plainly or through $eq"""
         v = self.eq_value(d, f)
         return {'$eq': v} if self.r.random() < 0.5 else v
+
+    def conflicting(self, d):
+        """equality conditions one below the other that the stored document `d` satisfies, in
+        either key order: a path of d that holds a non-empty sub-document or array, with that
+        value, and one (now and then two) paths into the value with what it holds there - an
+        array position named or, a third of the time, passed through implicitly; every
+        condition stated plainly or as {$eq: v}.  `_id` takes part like any field.  None when
+        d holds no container"""
+        r = self.r
+        if d is None:
+            return None
+        tops = [(list(p), v) for p, v in [((), d)] + self.g.paths_of(d)
+                if isinstance(v, (dict, list)) and v and p]
+        if not tops:
+            return None
+        p, v = r.choice(tops)
+        below = self.g.paths_of(v)
+        conds = [('.'.join(p), copy.deepcopy(v))]
+        for q, w in r.sample(below, min(len(below), r.choice([1, 1, 1, 1, 2]))):
+            q = list(q)
+            if r.random() < 0.33:
+                q = [c for c in q if not c.isdigit()] or q
+            conds.append(('.'.join(p + q), copy.deepcopy(w)))
+        conds = [(k, {'$eq': w} if r.random() < 0.4 else w) for k, w in conds]
+        r.shuffle(conds)
+        return conds
 
     def filt(self):
         r = self.r
@@ -126,18 +162,25 @@ class Gen13(hist.HistGen):
                 else:
                     f[sub] = opc
                     f[k] = eqv
-            elif x < 0.89:
-                # an equality below another equality: no document can be inferred (WriteError)
-                k = r.choice(gen.FIELDS + ['_id'])
-                sub = k + '.' + r.choice(gen.FIELDS + ['k'])
-                eqv = r.choice([{}, {'k': 1}, 3, {'$eq': {'k': 2}}])
-                if r.random() < 0.5:
-                    f[k] = eqv
-                    f[sub] = r.choice([1, {'$eq': 1}])
-                else:
-                    f[sub] = r.choice([1, {'$eq': 1}])
-                    f[k] = eqv
-            elif x < 0.95:
+            elif x < 0.91:
+                # an equality below another equality: no document can be inferred (WriteError
+                # when nothing matches), yet it is a filter like any other for FINDING documents:
+                # two times out of three the pair is read off a stored document, which then
+                # satisfies both conditions
+                pair = self.conflicting(d) if r.random() < 0.67 else None
+                aimed = pair is not None
+                if pair is None:
+                    k = r.choice(gen.FIELDS + ['_id'])
+                    sub = k + '.' + r.choice(gen.FIELDS + ['k'])
+                    eqv = r.choice([{}, {'k': 1}, 3, {'$eq': {'k': 2}}])
+                    pair = [(k, eqv), (sub, r.choice([1, {'$eq': 1}]))]
+                    if r.random() < 0.5:
+                        pair.reverse()
+                for k, v in pair:
+                    f[k] = v
+                if aimed and r.random() < 0.5:
+                    break        # no further condition that the document may not satisfy
+            elif x < 0.96:
                 k = r.choice(gen.FIELDS)
                 f[k] = r.choice([{'$gt': r.choice([0, 2, 100])}, {'$in': [1, 'x', 9]},
                                  {'$ne': r.choice([1, 'x'])}, {'$exists': r.random() < 0.5},
@@ -224,7 +267,7 @@ class Conflict(Exception):
     """the equality conditions of the filter contradict each other: one lies at or below another"""
 
 
-def seed_of(filt):
+def seed_of(filt, implied_id=True):
     """the document the filter's equality conditions describe (independent of mongomock):
     plain values and {$eq: v} contribute, dotted paths are expanded (every component, the empty
     one included, is a field name), operator conditions and logical operators contribute
@@ -233,7 +276,8 @@ def seed_of(filt):
     seed = {}
     paths = []
     items = list(filt.items())
-    if '_id' not in filt:
+    implied_id = implied_id and '_id' not in filt
+    if implied_id:
         items.append(('_id', None))    # the generated / update-given _id takes part in conflicts
     for n, (k, v) in enumerate(items):
         if k.startswith('$'):
@@ -258,7 +302,7 @@ def seed_of(filt):
             raise refupdate.Unknown('numeric component')
         if n < len(filt):
             refupdate.set_at(seed, parts, copy.deepcopy(v))
-    return seed, paths[:len(paths) if '_id' in filt else -1]
+    return seed, paths[:-1] if implied_id else paths
 
 
 def has_dollar(v):
@@ -332,13 +376,122 @@ def oracle(history, steps):
         k = st.op[0]
         up = upsert_flag(st.op)
         pre = (st.extra or {}).get('pre')
-        if up is not None and st.out[0] == 'val' and pre and 'error' not in pre and \
-                pre['size'] == len(prev):
-            fails.extend(judge(history, i, st, prev, docs, up, pre))
+        if up is not None and pre and 'error' not in pre and pre['size'] == len(prev):
+            if st.out[0] == 'val':
+                fails.extend(judge(history, i, st, prev, docs, up, pre))
+            elif up and pre['matches'] > 0:
+                # the call raised although a document matches: so must the call without upsert
+                fails.extend(judge_matched(history, i, st, prev, docs, pre))
+        elif k == 'bulk_write' and any(is_upsert_request(q) for q in st.op[1]):
+            fails.extend(judge_bulk(history, i, st))
         prev = docs
         if any(l not in known_labels for (_, l, _) in fails) or len(fails) > 50:
             break
     return fails
+
+
+def frozen_out(out):
+    return tuple(freeze(x) for x in out)
+
+
+def judge_matched(history, i, st, prev, docs, pre):
+    """upsert=True while `pre['matches']` > 0 documents match the filter - whatever the shape of
+    the filter (conflicting equalities included: they only matter for a document that has to be
+    inferred) and whatever the outcome, a value or an error: nothing is inserted and the call is
+    the same call without upsert (run on a twin)"""
+    fails = []
+    k = st.op[0]
+    out = st.out[1] if st.out[0] == 'val' else None
+    COUNTS['matched_upserts_compared_with_twin'] += 1
+    if st.out[0] != 'val':
+        COUNTS['matched_upserts_that_raised'] += 1
+    if conflicting_equalities(st.op[1]):
+        COUNTS['matched_upserts_with_conflicting_equalities'] += 1
+    if len(docs) != len(prev):
+        fails.append((i, 'upsert-despite-match', '%s(upsert=True): %d documents match but the '
+                      'collection went from %d to %d documents'
+                      % (k, pre['matches'], len(prev), len(docs))))
+    if k in UPD and isinstance(out, dict) and out.get('upserted') is not None:
+        fails.append((i, 'upsert-despite-match', '%s(upsert=True) with %d matches reports '
+                      'upserted_id %r' % (k, pre['matches'], out.get('upserted'))))
+    # the same call without upsert, on a twin
+    twin = histcheck.run_history(history[:i] + [without_upsert(st.op)], st.oids)
+    t = twin[i]
+    if renumber_state(state_of(t.obs)) != renumber_state(state_of(st.obs)) or \
+            frozen_out(t.out) != frozen_out(st.out):
+        fails.append((i, 'upsert-differs-when-matched', '%s filter %r with %d matching documents: '
+                      'upsert=True gave %r / %r, upsert=False gives %r / %r'
+                      % (k, st.op[1], pre['matches'], st.out, state_of(st.obs), t.out,
+                         state_of(t.obs))))
+    return fails
+
+
+BULK_UPS = ('UpdateOne', 'UpdateMany', 'ReplaceOne')
+
+
+def conflicting_equalities(filt):
+    """the filter itself states an equality (plainly or as {$eq: v}) at or below another one;
+    the `_id` a new document would be given does not count"""
+    if not isinstance(filt, dict):
+        return False
+    paths = [str(k).split('.') for k, v in filt.items()
+             if not str(k).startswith('$') and (not is_opdoc(v) or set(v) == {'$eq'})]
+    return any(m != n and p[:len(q)] == q
+               for m, p in enumerate(paths) for n, q in enumerate(paths))
+
+
+def is_upsert_request(q):
+    return q[0] in BULK_UPS and bool(q[3])
+
+
+def bulk_match_counts(history, i, op):
+    """for every upserting request of the bulk `op` = history[i]: how many documents its filter
+    finds at the moment the request is reached (the requests before it executed one by one on a
+    twin, an ordered bulk stopping at the first refused one); None for the other requests, for
+    those never reached and for filters find refuses"""
+    pr = hist.PyRunner(getattr(sys.modules[__name__], 'server_version', '5.0.5'))
+    counts = [None] * len(op[1])
+    try:
+        for o in history[:i]:
+            pr.apply(o[1] if o and o[0] == 'noobs' else o)
+        for j, q in enumerate(op[1]):
+            if is_upsert_request(q):
+                try:
+                    counts[j] = len(list(pr.coll.find(copy.deepcopy(q[1]))))
+                except Exception:  # pylint: disable=broad-except
+                    counts[j] = None
+            out, _ = pr.apply(['bulk_write', [copy.deepcopy(q)], True])
+            if op[2] and isinstance(out, tuple) and out and out[0] == '!':
+                break
+    finally:
+        pr.close()
+    return counts
+
+
+def judge_bulk(history, i, st):
+    """a bulk whose upserting requests find a document when they are reached equals the bulk
+    with upsert switched off on exactly those requests (outcome, counts, upserted list, errors,
+    state)"""
+    op = st.op
+    counts = bulk_match_counts(history, i, op)
+    hit = [j for j, n in enumerate(counts) if n]
+    if not hit:
+        return []
+    COUNTS['bulks_with_matched_upserts_compared_with_twin'] += 1
+    if any(conflicting_equalities(op[1][j][1]) for j in hit):
+        COUNTS['bulks_with_matched_upserts_with_conflicting_equalities'] += 1
+    twin_op = copy.deepcopy(op)
+    for j in hit:
+        twin_op[1][j][3] = False
+    t = histcheck.run_history(history[:i] + [twin_op], st.oids)[i]
+    if renumber_state(state_of(t.obs)) != renumber_state(state_of(st.obs)) or \
+            frozen_out(t.out) != frozen_out(st.out):
+        return [(i, 'upsert-differs-when-matched', 'bulk_write %r: the requests %r (upsert=True) '
+                 'find %r documents when they are reached; the bulk gave %r / %r, with upsert=False '
+                 'on those requests it gives %r / %r'
+                 % (op[1], hit, [counts[j] for j in hit], st.out, state_of(st.obs), t.out,
+                    state_of(t.obs)))]
+    return []
 
 
 def judge(history, i, st, prev, docs, up, pre):
@@ -356,22 +509,7 @@ def judge(history, i, st, prev, docs, up, pre):
                           % (k, out.get('upserted'))))
         return fails
     if pre['matches'] > 0:
-        if len(docs) != len(prev):
-            fails.append((i, 'upsert-despite-match', '%s(upsert=True): %d documents match but the '
-                          'collection went from %d to %d documents'
-                          % (k, pre['matches'], len(prev), len(docs))))
-        if k in UPD and isinstance(out, dict) and out.get('upserted') is not None:
-            fails.append((i, 'upsert-despite-match', '%s(upsert=True) with %d matches reports '
-                          'upserted_id %r' % (k, pre['matches'], out.get('upserted'))))
-        # the same call without upsert, on a twin
-        twin = histcheck.run_history(history[:i] + [without_upsert(st.op)], st.oids)
-        t = twin[i]
-        if renumber_state(state_of(t.obs)) != renumber_state(state_of(st.obs)) or \
-                freeze(t.out) != freeze(st.out):
-            fails.append((i, 'upsert-differs-when-matched', '%s with a match: upsert=True gave %r / '
-                          '%r, upsert=False gives %r / %r'
-                          % (k, st.out, state_of(st.obs), t.out, state_of(t.obs))))
-        return fails
+        return judge_matched(history, i, st, prev, docs, pre)
     # nothing matched: exactly one new document, nothing else touched
     if len(docs) != len(prev) + 1 or len(new) != 1:
         fails.append((i, 'upsert-count', '%s(upsert=True) with no match took the collection from '
@@ -515,4 +653,5 @@ def run(ctx, proof, driver_ok):
     n = fixed_witnesses(ctx, sys.modules[__name__])
     cov = _run(ctx, proof, driver_ok)
     cov['fixed_witnesses_replayed'] = n
+    cov['twin_oracle'] = dict(COUNTS)
     return cov
